@@ -237,13 +237,47 @@ func c06History(r *vu.RNG) string {
 	}
 	toks = append(toks, "R")
 	toks = append(toks, c06Probes(keys)...)
-	if r.Chance(1, 3) {
+	if r.Chance(2, 3) {
 		toks = append(toks, "D")
 	}
 	return strings.Join(toks, " ")
 }
 
+// exhaustive small scope (thorough tier): every history of at most 4 operations over 4 nested
+// keys, values of 1, 32 and 33 bytes, deletes, commits and reopens, for both versions; every
+// history ends with a reopen and a read of every key
+func c06Exhaustive(emit func(string)) {
+	keys := []string{"-", "12", "1234", "1235"}
+	vals := []string{"c1", strings.Repeat("c2", 32), strings.Repeat("c3", 33)}
+	var ops []string
+	for _, k := range keys {
+		for _, v := range vals {
+			ops = append(ops, "p:"+k+":"+v)
+		}
+		ops = append(ops, "d:"+k)
+	}
+	ops = append(ops, "h", "R")
+	tail := " R g:- g:12 g:1234 g:1235 g:1236 g:123400"
+	var rec func(prefix string, depth int)
+	rec = func(prefix string, depth int) {
+		if depth > 0 {
+			emit("0" + prefix + tail)
+			emit("1" + prefix + tail)
+		}
+		if depth == 4 {
+			return
+		}
+		for _, o := range ops {
+			rec(prefix+" "+o, depth+1)
+		}
+	}
+	rec("", 0)
+}
+
 func c06Gen(r *vu.RNG, n int, emit func(string)) {
+	if vu.Thorough() {
+		c06Exhaustive(emit)
+	}
 	// boundary corpus: a single value of length 31..34 under both versions
 	for ver := 0; ver < 2; ver++ {
 		for l := 30; l <= 34; l++ {
